@@ -43,7 +43,7 @@ def hook_commits():
     except Exception:
         pass
     try:
-        return json.load(open(os.path.join(ROOT, "MANIFEST.json")))["hooks"].get("source_commits", [])
+        return json.load(open(os.path.join(os.path.dirname(os.path.dirname(os.path.abspath(__file__))), "MANIFEST.json")))["hooks"].get("source_commits", [])
     except Exception:
         return []
 
